@@ -164,6 +164,12 @@ impl Model for GaugeModel {
 /// Integer-valued operands whose upper and lower 32-bit halves both carry information,
 /// small enough that every sum stays exact in an f64 and exact when exposed as f64.
 fn operand(rng: &mut Rng, flavour: Flavour, k: u64) -> u64 {
+    // float flavour, one operand in six: magnitudes far apart / non-integers, so that a value computed
+    // from a stale read (or re-associated) does not round to the same bits
+    if flavour == Flavour::F64 && rng.chance(1, 6) {
+        let v = *rng.pick(&[1e300, -1e300, 1e-300, 0.1, -0.3, 1e17 + 2.0, 3.5e-9, 7.25, -0.0]);
+        return (v * (1.0 + (k % 7) as f64)).to_bits();
+    }
     let hi = 1 + rng.below(1 << 16);
     let lo = (k << 8) | rng.below(256) | 0x1_0000;
     let v = ((hi << 32) | lo) as i64;
